@@ -36,10 +36,13 @@ func implConfig(text string, cpus int, noColor bool, editor string) string {
 			app.FromConfigFile{FileContents: text},
 		)
 		if err != nil {
+			// which setting was refused is read off the message; when the wording does not allow that, only the refusal counts
 			if m := reCfgKey.FindStringSubmatch(err.Details()); m != nil {
 				res = "bad " + m[1]
-			} else {
+			} else if strings.Contains(err.Details(), "Malformed syntax in line") {
 				res = "bad syntax"
+			} else {
+				res = "bad ?"
 			}
 			return
 		}
@@ -202,6 +205,9 @@ func runConfigCase(env *Env, data map[string]any, prop string) *Outcome {
 	}
 	model := env.Drv.Ask("config", fmt.Sprint(cpus), nc, ed, hx(text))
 	o.Evals = 1
+	if impl == "bad ?" && strings.HasPrefix(model, "bad ") {
+		impl = model
+	}
 	if impl != model {
 		o.Findings = append(o.Findings, Finding{Kind: "K", What: "K." + prop + ".config: app.NewConfig differs from the model", Impl: short(impl, 800), Model: short(model, 800)})
 	}
